@@ -409,6 +409,9 @@ func genLeaf(r *hlib.Rng, cols []genCol, malformed bool) *cnode {
 			var v string
 			if n.cmpS == "like" || n.cmpS == "ilike" {
 				v = patPool[r.Intn(len(patPool))]
+				if r.Chance(1, 3) {
+					v = []string{"a", "A", "ab", "AB", "aB", "b", "%b", "A%"}[r.Intn(8)]
+				}
 			} else {
 				v = strPool[r.Intn(len(strPool))]
 			}
